@@ -12,6 +12,8 @@ type WKTOpts struct {
 	UnitFirst bool // linear UNIT right after GEOGCS (GDAL) instead of last (ESRI)
 	Reverse   bool // PARAMETER clauses in reverse order
 	Axis      bool // trailing AXIS clauses
+	// Sep: white space written after every comma: "" (the compact one-line form), " " or "\n    " (pretty-printed)
+	Sep string
 }
 
 var wktProjName = map[string]string{"merc": "Mercator_1SP", "lcc": "Lambert_Conformal_Conic_2SP", "aea": "Albers_Conic_Equal_Area",
@@ -29,7 +31,16 @@ var WKTDatumNames = map[string][]string{
 
 // WKT renders d (one of merc, lcc 2SP, aea, eqdc, tmerc, longlat with Greenwich prime meridian and enu axes) as OGC WKT.
 // Linear parameters are written in the declared linear unit, angular ones in degrees. variant picks the datum name spelling.
+// WKT renders the definition as OGC WKT. White space after commas (o.Sep) is insignificant in the grammar.
 func (d Def) WKT(o WKTOpts, variant int) string {
+	s := d.wkt(o, variant)
+	if o.Sep != "" {
+		s = strings.ReplaceAll(s, ",", ","+o.Sep) // names never contain commas
+	}
+	return s
+}
+
+func (d Def) wkt(o WKTOpts, variant int) string {
 	a, es := d.Ellipsoid()
 	_ = es
 	var rfText string
